@@ -1219,12 +1219,14 @@ int main(int argc, char** argv) {
   string in, outp, entry = "vp_main";
   bool lineInfo = true, prep = false;
   std::set<string> stubs;
-  std::vector<string> skipCtors;  // global constructors (by name substring) not executed: stated per harness
+  std::vector<string> skipCtors;
+  std::vector<string> stubSubs;   // 'a+b': functions whose name contains both a and b are turned into declarations  // global constructors (by name substring) not executed: stated per harness
   for (int i = 1; i < argc; i++) {
     string a = argv[i];
     if (a == "-o") outp = argv[++i];
     else if (a == "--prep") prep = true;
     else if (a == "--stub") stubs.insert(argv[++i]);
+    else if (a == "--stub-containing") stubSubs.push_back(argv[++i]);
     else if (a == "--skip-ctor") skipCtors.push_back(argv[++i]);
     else if (a == "--entry") entry = argv[++i];
     else if (a == "--no-line") lineInfo = false;
@@ -1240,7 +1242,13 @@ int main(int argc, char** argv) {
     for (Function& F : *M) {
       F.removeFnAttr(Attribute::NoInline);
       F.removeFnAttr(Attribute::OptimizeNone);
-      if (stubs.count(F.getName().str()) && !F.isDeclaration()) {
+      bool bySub = false;
+      for (auto& sub : stubSubs) {
+        size_t plus = sub.find('+');
+        string a1 = sub.substr(0, plus), b1 = plus == string::npos ? "" : sub.substr(plus + 1);
+        if (F.getName().contains(a1) && (b1.empty() || F.getName().contains(b1))) bySub = true;
+      }
+      if ((bySub || stubs.count(F.getName().str())) && !F.isDeclaration()) {
         F.deleteBody();
         F.setLinkage(GlobalValue::ExternalLinkage);
         F.setComdat(nullptr);
